@@ -92,6 +92,10 @@ type Case struct {
 	// Overflow adds the sequence "a call that ends in stack overflow, then a small call that never
 	// reaches a host function" on ONE api.Function (deepid), through Call and CallWithStack.
 	Overflow bool `json:"overflow,omitempty"`
+	// TailQ: types of extra leading parameters of the wide tail callers wide_tail / wide_tci
+	// ((TailQ..., params...) -> results: drop TailQ, return_call[_indirect] the host function), so
+	// that the tail-calling function's own signature differs from the host function's.
+	TailQ string `json:"tail_extra_params,omitempty"`
 }
 
 var styles = []string{"reflect", "reflect-ctx", "reflect-mod", "gofunc", "gomodfunc"}
@@ -344,6 +348,30 @@ func buildGuest(c Case) []byte {
 	holdR := append([]byte{wasmenc.I64}, R...)
 	m.ExportFunc("hold_tail", m.AddFunc(P, holdR, nil, params(wasmenc.NewB().I64Const(holdMark)).Call(echoTail).Bytes()))
 	m.ExportFunc("hold_tci", m.AddFunc(P, holdR, nil, params(wasmenc.NewB().I64Const(holdMark)).Call(echoTci).Bytes()))
+	if c.TailQ != "" {
+		Q := vts(c.TailQ)
+		nq := uint32(len(Q))
+		wp := append(append([]byte{}, Q...), P...)
+		fwd := func(b *wasmenc.B) *wasmenc.B { // the host function's params are the trailing params
+			for i := uint32(0); i < np; i++ {
+				b.LocalGet(nq + i)
+			}
+			return b
+		}
+		all := func(b *wasmenc.B) *wasmenc.B {
+			for i := uint32(0); i < nq+np; i++ {
+				b.LocalGet(i)
+			}
+			return b
+		}
+		wideTail := m.AddFunc(wp, R, nil, fwd(wasmenc.NewB()).ReturnCall(host).Bytes())
+		m.ExportFunc("wide_tail", wideTail)
+		wideTci := m.AddFunc(wp, R, nil, fwd(wasmenc.NewB()).I32Const(0).ReturnCallIndirect(tIdx, ownTable).Bytes())
+		m.ExportFunc("wide_tci", wideTci)
+		// wasm callers of the wide tail callers, keeping an operand across the call
+		m.ExportFunc("wide_hold_tail", m.AddFunc(wp, holdR, nil, all(wasmenc.NewB().I64Const(holdMark)).Call(wideTail).Bytes()))
+		m.ExportFunc("wide_hold_tci", m.AddFunc(wp, holdR, nil, all(wasmenc.NewB().I64Const(holdMark)).Call(wideTci).Bytes()))
+	}
 	if c.Overflow {
 		// deepid(d, params...) -> params: non-tail recursion d levels deep, then returns its params
 		dp := append([]byte{wasmenc.I32}, P...)
@@ -858,6 +886,14 @@ func valid(c Case) bool {
 			return false
 		}
 	}
+	if len(c.TailQ) > 32 {
+		return false
+	}
+	for _, ch := range c.TailQ {
+		if !strings.ContainsRune("iIfFx", ch) {
+			return false
+		}
+	}
 	if len(c.Imports) > 0 {
 		want := map[string]int{"f": 1}
 		for _, j := range c.Probes {
@@ -1106,6 +1142,36 @@ func runCase(c Case) (f *failure, st runStats) {
 				}
 			}
 		}
+		if c.TailQ != "" && !c.NoTail {
+			// wide tail callers: own signature (TailQ..., params) differs from the host function's
+			wargs := make([]uint64, 0, len(c.TailQ)+np)
+			for i := range c.TailQ {
+				wargs = append(wargs, canon(c.TailQ[i], mix(0x7a11, uint64(vi), uint64(i))))
+			}
+			wargs = append(wargs, v.Args...)
+			for k, fn := range []string{"wide_tail", "wide_tci", "wide_hold_tail", "wide_hold_tci"} {
+				for _, ws := range []bool{false, true} {
+					if (k+vi)%2 == 1 && ws || (k+vi)%2 == 0 && !ws && k >= 2 {
+						continue // keep the number of calls down: alternate the calling form
+					}
+					wantRes, resTypes := v.Res, c.R
+					if k >= 2 {
+						wantRes, resTypes = append([]uint64{holdMark}, v.Res...), "I"+c.R
+					}
+					what := fmt.Sprintf("vector %d: %s via %s (tail-calling function has the extra leading params %q)", vi, fn, form(ws), c.TailQ)
+					res, err := call(fn, ws, wargs, len(wantRes))
+					if err != nil {
+						return failf("%s: %s failed: %v", describe(c), what, firstLine(err)), st
+					}
+					if f := hostSaw(what, v.Args); f != nil {
+						return f, st
+					}
+					if f := sameRes(what+": results returned by the host function", resTypes, res, wantRes); f != nil {
+						return f, st
+					}
+				}
+			}
+		}
 		if c.Overflow && vi == 0 {
 			// one api.Function: small call, call that overflows the stack, small call again (never reaches a host function)
 			small := append([]uint64{3}, v.Args...)
@@ -1296,6 +1362,9 @@ func describe(c Case) string {
 	}
 	if c.Overflow {
 		g += " with-overflow-sequence"
+	}
+	if c.TailQ != "" {
+		g += fmt.Sprintf(" tail-caller-extra-params=%q", c.TailQ)
 	}
 	if len(c.Imports) > 0 {
 		g += fmt.Sprintf(" guest-imports=%v", c.Imports)
@@ -1737,7 +1806,7 @@ func genValue(t *rapid.T, ty byte) uint64 {
 
 var (
 	pArities = []int{0, 1, 2, 3, 5, 6, 7, 8, 9, 10, 11, 12, 13, 15, 16, 17, 18, 20, 23, 24}
-	rArities = []int{0, 1, 1, 2, 3, 5, 6, 7, 8, 9, 10, 11, 12}
+	rArities = []int{0, 1, 1, 2, 3, 5, 6, 7, 8, 9, 10, 11, 12, 13, 14}
 )
 
 func genTypes(t *rapid.T, n int, label string) string {
@@ -1807,7 +1876,7 @@ func genCase(t *rapid.T) Case {
 	}
 	nr := rapid.SampledFrom(rArities).Draw(t, "nr")
 	if rapid.IntRange(0, 3).Draw(t, "nr-any") == 0 {
-		nr = rapid.IntRange(0, 12).Draw(t, "nr")
+		nr = rapid.IntRange(0, 14).Draw(t, "nr")
 	}
 	c.P, c.R = genTypes(t, np, "p"), genTypes(t, nr, "r")
 	c.PGo, c.RGo = genGo(t, np, "p"), genGo(t, nr, "r")
@@ -1855,6 +1924,13 @@ func genCase(t *rapid.T) Case {
 		}
 	}
 	c.Overflow = rapid.IntRange(0, 79).Draw(t, "overflow-sequence") == 17
+	if rapid.IntRange(0, 2).Draw(t, "wide-tail-caller") != 0 {
+		nq := rapid.IntRange(1, 16).Draw(t, "nq")
+		if rapid.Bool().Draw(t, "nq-wide") {
+			nq = rapid.IntRange(8, 16).Draw(t, "nq")
+		}
+		c.TailQ = genTypes(t, nq, "q")
+	}
 	if c.Fleet > 1 && rapid.IntRange(0, 2).Draw(t, "one-host-module") != 0 {
 		c.Mods = rapid.IntRange(2, 3).Draw(t, "host-modules")
 	}
@@ -1959,6 +2035,12 @@ func labelsOf(c Case, st runStats) (bool, []string) {
 	}
 	if c.Overflow {
 		l = append(l, "overflow-then-plain-call-on-one-handle")
+	}
+	if c.TailQ != "" {
+		l = append(l, "wide-tail-caller")
+		if (count(c.TailQ+c.P, "iIx") > 7 || count(c.TailQ+c.P, "fF") > 8) && count(c.P, "iIx") <= 7 && count(c.P, "fF") <= 8 && (count(c.R, "iIx") > 9 || count(c.R, "fF") > 8) {
+			l = append(l, "tail-caller-stack-params/host-register-params/stack-results")
+		}
 	}
 	if strings.ContainsAny(c.PGo+c.RGo, "SU") && isReflect(c.Style) {
 		l = append(l, "reflect-named-go-types")
